@@ -124,6 +124,60 @@ def gen_cycles(rng, n_rows, cycles):
     return Case(rust, coq, "cycles", {"classes": [], "checks": [], "sizes": sizes})
 
 
+def gen_drop_reuse(rng):
+    """pages released by VACUUM after a DROP TABLE are reused by new tables, then VACUUM runs again: nothing may be released
+    twice (the DROP is the last commit before the first VACUUM, so its catalog rows are the youngest dead versions)"""
+    h = G.History()
+    pad = b"abcdefghijklmnopqrstuvwxyz0123456789" * 3
+    nid = [1]
+
+    def table(tid):
+        t = G.Table(tid, "t%d" % tid, [("id", "INT", False, None), ("v", "INT", False, None), ("s", "TEXT", False, None)])
+        h.x(t.create_sql(), t.create_coq())
+        return t
+
+    def fill(t, n):
+        while n > 0:
+            k = min(n, 40)
+            rows = []
+            for _ in range(k):
+                rows.append([G.lit_int(nid[0]), G.lit_int(rng.randint(0, 9)), G.lit_text(pad[:rng.choice([20, 60, 100])])])
+                nid[0] += 1
+            h.x(G.insert_sql(t, rows), G.insert_coq(t, rows), sorted_=True)
+            n -= k
+
+    def read(ts):
+        for t in ts:
+            q = select_all(t)
+            h.x(q.sql(), q.coq(), sorted_=True)
+
+    t1 = table(1); fill(t1, rng.choice([80, 120, 150]))
+    t2 = table(2); fill(t2, rng.choice([5, 30]))
+    if rng.random() < 0.3:
+        h.simple("V", "AVacuum")
+    if rng.random() < 0.7:
+        h.x("DROP TABLE t1", "SDrop 1")
+        live = [t2]
+    else:
+        h.x(G.delete_sql(t1, None), G.delete_coq(t1, None), sorted_=True)
+        live = [t1, t2]
+    h.simple("V", "AVacuum")
+    t3 = table(3); fill(t3, rng.choice([40, 80]))
+    t4 = table(4); fill(t4, rng.choice([10, 40, 80]))
+    live += [t3, t4]
+    read(live)
+    h.simple("V", "AVacuum")
+    read(live)
+    fill(rng.choice([t3, t4]), 10)
+    if rng.random() < 0.5:
+        h.simple("O", "AReopen", "cache=10000")
+    read(live)
+    h.simple("V", "AVacuum")
+    read(live)
+    rust, coq = h.render()
+    return Case(rust, coq, "drop-reuse", {"classes": [], "checks": []})
+
+
 def oracle(case, il):
     """independent of the model: reads before and after VACUUM agree; update/vacuum cycles do not grow the file"""
     segs = il.split(" | ")
@@ -154,6 +208,8 @@ def gen_cases(rng, tier):
         out.append(gen_history(rng, feats))
     for n_rows, cycles in ([(5, 10), (40, 12)] if tier == "quick" else [(5, 10), (40, 12), (200, 20), (3, 40)]):
         out.append(gen_cycles(rng, n_rows, cycles))
+    for _ in range(6 if tier == "quick" else 60):
+        out.append(gen_drop_reuse(rng))
     return [G.tag_key_reuse(c) for c in out]
 
 
@@ -169,7 +225,8 @@ class C13(Spec):
             "table is read immediately before and after each VACUUM and a statement is executed after it (usability).  Oracle "
             "independent of the model: the reads around each VACUUM are identical.  cycles: UPDATE of every row followed by VACUUM, "
             "10-40 times on 3-200 rows, with the file size sampled after each cycle; oracle: the size at the end does not exceed the "
-            "size half-way.  Every answer is also compared with RefDB (where VACUUM is the identity).  non-trivial = history has a "
+            "size half-way.  drop-reuse: a multi-page table is dropped (or emptied) as the last commit before a VACUUM, new tables "
+            "reuse the released pages, VACUUM runs again (twice), with full reads in between and after a reopen.  Every answer is also compared with RefDB (where VACUUM is the identity).  non-trivial = history has a "
             "rolled-back or dropped session")
     trusted_extra = ["vac_tuple / vac_store (Proofs/VacuumProofs.v) are written by hand from Catalog::vacuum_btree (schema/catalog.rs) and "
                      "Database::vacuum (lib.rs); they are tied to the code by the SQL histories of this check and, for the row-level "
